@@ -337,6 +337,11 @@ def gen_optimization(ch):
         mode = ch.pick("package.mode", ["free_props_fixed_total", "free_props_free_total", "fixed_props_free_total"])
         package = {"progs": chosen[:k], "t": start, "mode": mode, "min_prop": [None, 0.05][ch.choose("package.min_prop", 2)], "max_prop": [None, 0.95][ch.choose("package.max_prop", 2)], "total_range": [0.8, 1.25]}
         constraint = None
+    paired = None
+    if len(chosen) >= 2 and package is None and ch.flip("paired_linear_adjustment", 0.12):
+        # the library's parametric adjustment: one ramp moving money between two programs, total conserved
+        paired = {"progs": chosen[:2], "t": [start, start + 1 + ch.choose("paired.span", 3)]}
+        constraint = None
     if fw.cascades and ch.flip("cascade_measurable", 0.2):
         cname = list(fw.cascades.keys())[ch.choose("cascade.which", len(fw.cascades))]
         measurables[0] = {"type": "cascade_stage", "name": cname, "t": [min(end, start + 1 + ch.choose("cascade.t", 3))], "pops": None, "stage": [-1, 0, 1][ch.choose("cascade.stage", 3)], "threshold_margin": 0.2}
@@ -350,6 +355,7 @@ def gen_optimization(ch):
         "measurables": measurables,
         "constraint": constraint,
         "package": package,
+        "paired": paired,
         "maxiters": 1 + ch.choose("maxiters", 12),
         "max_time": [60.0, 3.0, 0.5, 0.01][ch.choose("max_time", 4)],
         "randseed": ch.choose("randseed", 2**31 - 1),
@@ -588,6 +594,10 @@ def execute(spec, fault, bump):
                         bump(f"probe:spending_package:{pk['mode']}")
                     pk["_init"] = init.tolist()
                     pk["_kw"] = {k2: (list(map(float, v2)) if isinstance(v2, (list, np.ndarray)) else v2) for k2, v2 in kwp.items()}
+                if spec.get("paired"):
+                    adjustments = [at.PairedLinearSpendingAdjustment(list(spec["paired"]["progs"]), list(spec["paired"]["t"]))]
+                    if fault is None:
+                        bump("probe:paired_linear_adjustment")
                 # thresholds for hard targets relative to the baseline value (so that the start satisfies them)
                 base_model = None
                 mspecs = []
@@ -901,7 +911,18 @@ def execute(spec, fault, bump):
                         violate("adjusted_value_out_of_bounds", "optimize:package_fixed_proportions", {"fractions": fr.tolist(), "initial": f0.tolist()})
                 elif np.any(fr < mn - 1e-6) or np.any(fr > mx + 1e-6):
                     violate("adjusted_value_out_of_bounds", "optimize:package_proportions", {"fractions": fr.tolist(), "min": mn.tolist(), "max": mx.tolist()})
-        for a in ([] if pk else spec["adjustments"]):
+        pr = spec.get("paired")
+        if pr:
+            # the ramp moves money from one program to the other: the pair's total at the end of the ramp is its
+            # total at the start, nobody goes below zero, and the first year is untouched
+            t0, t1 = pr["t"]
+            b0 = [float(P2.progsets[0].get_alloc(t0, base_instr)[pn][0]) for pn in pr["progs"]]
+            n0 = [new_instr.alloc[pn].get(t0) for pn in pr["progs"]]
+            n1 = [new_instr.alloc[pn].get(t1) for pn in pr["progs"]]
+            tol = 1e-6 * max(1.0, sum(b0))
+            if any(v is None for v in n0 + n1) or abs(sum(n1) - sum(b0)) > tol or min(n1) < -tol or any(abs(a - b) > tol for a, b in zip(n0, b0)):
+                violate("adjusted_value_out_of_bounds", "optimize:paired_ramp", {"progs": pr["progs"], "start_year_before": b0, "start_year_after": n0, "end_of_ramp": n1})
+        for a in ([] if (pk or pr) else spec["adjustments"]):
             for t in a["t"]:
                 v = new_instr.alloc[a["prog"]].get(t)
                 x0 = float(P2.progsets[0].get_alloc(t, base_instr)[a["prog"]][0])
